@@ -2,6 +2,7 @@
 import g1
 
 PROPERTY = 'C04'
+THOROUGH_EXTRA = 150
 
 LIMITS = [{'rack': 1}, {'server': 1}, {'server': 1, 'cell': 2}, {'rack': 2}]
 AFFS = [('x', 'x', 'x'), ('x', 'x', 'y'), ('x', 'y', 'x'), ('y', 'x', 'x')]
@@ -40,7 +41,7 @@ def subharnesses(tier):
 
 
 def budget(tier, name):
-    return 400.0 if tier == 'quick' else 1500.0
+    return 400.0 if tier == 'quick' else 600.0
 
 
 def _evict_branch(S, label):
